@@ -3,6 +3,18 @@
 import json, sys
 BASE = "cd /repo && cargo nextest run --workspace --no-fail-fast --test-threads 8 --offline || cargo test --workspace --no-fail-fast --offline"
 CHECKS = {
+ "C01": dict(cat="model_checking", eng="mdv-lat", ref="DESIGN.md §3 C01",
+   tech="exhaustive option-tuple enumeration (full product at N=3, <=2 deviations elsewhere) x target shapes on real dumps of a puppet process, judged by an independent strict minidump parser with interval non-overlap sweep",
+   text="Every tuple of the 7 writer-option dimensions (1296) on a 3-thread puppet and every tuple with <=2 deviations on 20+ further shapes (N up to 64, four named/unnamed mixes via real non-UTF-8 kernel names, mapped ELF / non-ELF files, extra descriptors) is dumped for real; each image must satisfy the strict parser (exact stream sizes, one stream per type, every RVA in bounds with its self-declared length) and the pairwise non-overlap sweep with only the two intended identical-blob exceptions.",
+   note="x86-64 Linux only; option alphabets are small boundary sets; the puppet is the only target program. Dumps that return Err are counted, not judged (C02/C11 own those)."),
+ "C15": dict(cat="model_checking", eng="mdv-lat", ref="DESIGN.md §3 C15",
+   tech="exhaustive enumeration of thread count x every subset of threads with unreadable kernel name x name alphabet on real dumps; oracle = tid/name pairing against /proc",
+   text="For N=1..6 (thorough 8) every one of the 2^N subsets of threads is given a non-UTF-8 kernel name (the others names from an 8-letter alphabet incl. 15/16-byte, non-ASCII and whitespace names, 2 rotations), plus pattern subsets for N up to 32 and the ThreadName fail point; the names stream must pair exactly the listed, readable threads with the names /proc reports.",
+   note="Unreadability is produced by real non-UTF-8 names and the crate's fail point; injected open(comm) failures come with the libc-interposition explorer."),
+ "C19": dict(cat="model_checking", eng="mdv-seq", ref="DESIGN.md §3 C19",
+   tech="explicit enumeration of dump histories on one writer x target changes x option sets with a differential oracle against a fresh writer",
+   text="Every history of 2..3 (thorough 4, plus 5 over two changes) dump requests on one MinidumpWriter, each preceded by one of 4 target changes, under 7 option sets: after every dump a fresh identically configured writer dumps the same quiescent (CPU-pinned) puppet and the normalised decodings (RVAs replaced by content) must be equal; the reused writer's image must also pass the structural validator.",
+   note="Volatile streams (timestamp, cpuinfo, status) masked. Equivalence when both writers fail is accepted."),
  "C05": dict(cat="model_checking", eng="mdv-lat", ref="DESIGN.md §3 C05",
    tech="deviation-bounded exhaustive enumeration (LAT) of ucontext/fpstate fields on the real fill_cpu_context vs. an independent field table",
    text="All tuples with <=1 (thorough <=2) deviations from an all-distinct base over 127 input dimensions x 6 boundary values are pushed through the real CrashContext::fill_cpu_context / get_instruction_pointer / get_stack_pointer and every CONTEXT_AMD64 field the statement names is compared with a field table restated from the two format definitions.",
